@@ -33,7 +33,7 @@ ASSUMPTIONS = [
     'callables inside results are compared behaviourally (called with no arguments)',
 ]
 BUDGET = {'quick': 16 * 500, 'thorough': 16 * 12000}
-FLOORS = {'af_nested': 0.25, 'kw_override': 0.3, 'positional_af': 0.03}
+FLOORS = {'af_nested': 0.177, 'kw_override': 0.219, 'positional_af': 0.03}
 
 _AF_FNS = ['things:make_rec', 'things:make_list', 'things:f2', 'things:ident', 'things:make_any', 'things:make_arr']
 
